@@ -32,7 +32,7 @@ def boxqp(ctx, n, shards, sub):
             fh.write("SPECIFICATION Spec\nCONSTANTS\n"
                      f"  N = {n}\n  BVals = {{{', '.join(map(str, sub['b']))}}}\n  Neg = TRUE\n  KindNames = {{{kinds}}}\n"
                      f"  XSet = {{{', '.join(map(str, sub['xs']))}}}\n  ShardN = {shards}\n  ShardK = {k}\nINVARIANT UniqueKKT\n")
-        return run_tlc(ctx, f"BoxQP n={n} {k}/{shards}", "BoxQP", str(p), workers=1, timeout=3000, record=False, heap="3g")
+        return run_tlc(ctx, f"BoxQP n={n} {k}/{shards}", "BoxQP", str(p), workers=1, timeout=10800, record=False, heap="3g")
 
     with ThreadPoolExecutor(max_workers=min(shards, NCPU)) as ex:
         outs = list(ex.map(one, range(shards)))
@@ -96,7 +96,7 @@ def convex_run(spec):
 
 
 def run(ctx):
-    tlc_design(ctx, "design:MCDriver(convex contract, fairness)", "MCDriver", "MCDriver_live.cfg", timeout=1200)
+    tlc_design(ctx, "design:MCDriver(convex contract, fairness)", "MCDriver", "MCDriver_live.cfg", timeout=5400)
     # exact lattice QPs
     if ctx.quick:
         lat = [(1, 1, {"kinds": ["free", "lo", "hi", "box", "fix"], "xs": [0, 1, 2, 3], "b": [0, 1, 2, 4]}),
